@@ -108,6 +108,11 @@ func (e *Enc) sliceInstr(fr *Frame, x *ssa.Slice) {
 		}
 		e.boundsObl(fr, x, And(Le(zero, l), Le(l, h), Le(h, n)), "array slice bounds")
 		sv := &SliceV{Off: l, Len: e.s.Define("len", Sub(h, l)), Cap: e.s.Define("cap", Sub(c, l)), Elem: at.Elem()}
+		if pv.A.Kind == ARef && pv.A.Lit {
+			sv.Base = pv.A.Base
+			e.setVal(fr, x, sv)
+			return
+		}
 		if pv.A.Kind == ACell && pv.A.I == nil {
 			sv.FromCell = pv.A.Cell
 			sv.CellPath = pv.A.Path
@@ -156,6 +161,11 @@ func (e *Enc) indexAddr(fr *Frame, x *ssa.IndexAddr) {
 		e.boundsObl(fr, x, And(Le(IntLit(0), idx), Lt(idx, IntLit(at.Len()))), "index in range")
 		if pv.A.I != nil {
 			panic("nested array index")
+		}
+		if pv.A.Kind == ARef && pv.A.Lit {
+			i := idx
+			e.setVal(fr, x, &PtrV{A: Addr{Kind: AElem, Base: pv.A.Base, I: &i}, Elem: at.Elem()})
+			return
 		}
 		if _, isStruct := under(at.Elem()).(*types.Struct); isStruct {
 			// array of composite elements: each element is an object at elemaddr(array, i)
